@@ -306,17 +306,17 @@ Hypothesis Hfresh : forall n, next1 < n -> ~ In n (version_numbers (dv_ver dv)).
 Notation Inv := (RSInv img dv next1 (oo_sizes o)).
 
 (** one log *)
-Lemma log_step n bs rest r tabd :
+Lemma log_step n bs (b : bool) rest r tabd :
   Inv r tabd [] ->
-  rs_next r <= rs_next (log_r3 o (mkWR n bs true) rest r) /\
-  n <= rs_next (log_r3 o (mkWR n bs true) rest r) /\
-  (if log_reuse o (mkWR n bs true) rest r
-   then Inv (log_r3 o (mkWR n bs true) rest r) tabd bs /\ oo_reuse o = true /\ rest = []
-   else Inv (log_r3 o (mkWR n bs true) rest r) (tabd ++ bs) [] /\
-        rs_new_manifest (log_r3 o (mkWR n bs true) rest r) = true).
+  rs_next r <= rs_next (log_r3 o (mkWR n bs b) rest r) /\
+  n <= rs_next (log_r3 o (mkWR n bs b) rest r) /\
+  (if log_reuse o (mkWR n bs b) rest r
+   then Inv (log_r3 o (mkWR n bs b) rest r) tabd bs /\ oo_reuse o = true /\ rest = [] /\ b = true
+   else Inv (log_r3 o (mkWR n bs b) rest r) (tabd ++ bs) [] /\
+        rs_new_manifest (log_r3 o (mkWR n bs b) rest r) = true).
 Proof.
   intros HI.
-  set (w := mkWR n bs true).
+  set (w := mkWR n bs b).
   set (r0 := mkRS (rs_next r) [] (rs_cuts r) (rs_ops r) (rs_added r) O (rs_new_manifest r)).
   assert (HI0 : Inv r0 tabd []).
   { apply (RSInv_ext img dv next1 (oo_sizes o) r r0 tabd [] []);
@@ -332,7 +332,7 @@ Proof.
   unfold log_r3. fold r1. cbn [wr_number w].
   destruct (log_reuse o w rest r) eqn:RU.
   - unfold log_reuse in RU. fold r1 in RU.
-    apply andb_prop in RU. destruct RU as (RU & _).
+    apply andb_prop in RU. destruct RU as (RU & RB). cbn [wr_intact w] in RB.
     apply andb_prop in RU. destruct RU as (RU & RF).
     apply andb_prop in RU. destruct RU as (RO & RL).
     apply Nat.eqb_eq in RF.
@@ -347,7 +347,7 @@ Proof.
       assert (Hnone : forall e, ~ In e (all_entries_of bs)).
       { intros e He. apply (rsi_mem _ _ _ _ _ _ _ S1) in He. rewrite M in He. destruct He. }
       split; [rewrite F3, T4, Hr0n; lia|]. split; [lia|].
-      split; [|split; [exact RO|exact Hrest]].
+      split; [|split; [exact RO|split; [exact Hrest|exact RB]]].
       apply (RSInv_ext img dv next1 (oo_sizes o) r2 _ tabd [] bs);
         cbn [rs_next rs_mem rs_ops rs_added rs_new_manifest]; try reflexivity.
       * lia.
@@ -358,7 +358,7 @@ Proof.
         intros H. left. exact H.
     + cbn [rs_next rs_mem rs_cuts rs_ops rs_added rs_flushes rs_new_manifest].
       split; [rewrite T4, Hr0n; lia|]. split; [lia|].
-      split; [|split; [exact RO|exact Hrest]].
+      split; [|split; [exact RO|split; [exact Hrest|exact RB]]].
       apply (RSInv_same img dv next1 (oo_sizes o) r1 _ tabd bs);
         cbn [rs_next rs_mem rs_ops rs_added rs_new_manifest]; try reflexivity; [lia|exact S1].
   - cbn [andb].
@@ -371,10 +371,10 @@ Proof.
       cbn [rs_next rs_mem rs_ops rs_added rs_new_manifest]; try reflexivity; [lia|exact F1].
 Qed.
 
-Lemma replay_logs_spec_sec (wimg : image) :
+Lemma replay_logs_spec_sec (wimg : image) (intact : N * list batch -> bool) :
   forall (logs : list (N * list batch)) r tabd r' reused,
   Inv r tabd [] ->
-  replay_logs o wimg (map (fun nb => mkWR (fst nb) (snd nb) true) logs) r = (r', reused) ->
+  replay_logs o wimg (map (fun nb => mkWR (fst nb) (snd nb) (intact nb)) logs) r = (r', reused) ->
   exists flushed kept,
     logs = flushed ++ kept /\
     Inv r' (tabd ++ log_batches flushed) (log_batches kept) /\
@@ -384,7 +384,7 @@ Lemma replay_logs_spec_sec (wimg : image) :
     match reused with
     | None => kept = []
     | Some (n, boff) =>
-        exists bs, kept = [(n, bs)] /\ oo_reuse o = true /\
+        exists bs, kept = [(n, bs)] /\ oo_reuse o = true /\ intact (n, bs) = true /\
           boff = (match lookupN n (i_wals wimg) with Some f => blen f | None => 0 end) mod BLOCK_SIZE_BYTES
     end.
 Proof.
@@ -393,19 +393,19 @@ Proof.
     exists [], []. change (log_batches []) with (@nil batch). rewrite (app_nil_r tabd).
     split; [reflexivity|]. split; [exact HI|]. split; [lia|]. split; [intros nb []|].
     split; [intros H; exfalso; apply H; reflexivity|reflexivity].
-  - cbn [map fst snd] in Hrun. rewrite replay_logs_cons in Hrun.
-    set (rest := map (fun nb => mkWR (fst nb) (snd nb) true) logs) in *.
-    destruct (log_step n bs rest r tabd HI) as (A & B & C).
-    set (r3 := log_r3 o (mkWR n bs true) rest r) in *.
-    destruct (log_reuse o (mkWR n bs true) rest r) eqn:RU.
+  - cbn [map] in Hrun. rewrite replay_logs_cons in Hrun. cbn [fst snd] in Hrun.
+    set (rest := map (fun nb => mkWR (fst nb) (snd nb) (intact nb)) logs) in *.
+    destruct (log_step n bs (intact (n, bs)) rest r tabd HI) as (A & B & C).
+    set (r3 := log_r3 o (mkWR n bs (intact (n, bs))) rest r) in *.
+    destruct (log_reuse o (mkWR n bs (intact (n, bs))) rest r) eqn:RU.
     + cbn [wr_number] in Hrun. injection Hrun as <- <-.
-      destruct C as (C1 & C2 & C3).
+      destruct C as (C1 & C2 & C3 & C4).
       assert (logs = []) as -> by (destruct logs; [reflexivity|discriminate]).
       exists [], [(n, bs)]. rewrite log_batches_single. change (log_batches []) with (@nil batch). rewrite (app_nil_r tabd).
       split; [reflexivity|]. split; [exact C1|]. split; [exact A|].
       split; [intros nb [<-|[]]; exact B|].
       split; [intros H; exfalso; apply H; reflexivity|].
-      exists bs. split; [reflexivity|]. split; [exact C2|reflexivity].
+      exists bs. split; [reflexivity|]. split; [exact C2|]. split; [exact C4|reflexivity].
     + destruct C as (C1 & C2).
       pose proof (replay_logs_nm o wimg _ _ _ _ Hrun C2) as Hnm.
       destruct (IH r3 (tabd ++ bs) r' reused C1 Hrun) as (fl & kp & E1 & E2 & E3 & E4 & E5 & E6).
@@ -419,6 +419,31 @@ Proof.
       split; [intros _; exact Hnm|exact E6].
 Qed.
 End LOGS.
+
+(** the logs one after the other, each intact or not ([wimg] is only used for the length of the reused log);
+    a log that is not intact is never reused: it is flushed like any log but the last *)
+Theorem replay_logs_spec_gen : forall (img : image) (dv : dview) (next1 : N) (o : open_oracle) (wimg : image)
+    (intact : N * list batch -> bool),
+  (forall n, next1 < n -> ~ In n (version_numbers (dv_ver dv))) ->
+  forall (logs : list (N * list batch)) r tabd r' reused,
+  RSInv img dv next1 (oo_sizes o) r tabd [] ->
+  replay_logs o wimg (map (fun nb => mkWR (fst nb) (snd nb) (intact nb)) logs) r = (r', reused) ->
+  exists flushed kept,
+    logs = flushed ++ kept /\
+    RSInv img dv next1 (oo_sizes o) r' (tabd ++ log_batches flushed) (log_batches kept) /\
+    rs_next r <= rs_next r' /\
+    (forall nb, In nb logs -> fst nb <= rs_next r') /\
+    (flushed <> [] -> rs_new_manifest r' = true) /\
+    match reused with
+    | None => kept = []
+    | Some (n, boff) =>
+        exists bs, kept = [(n, bs)] /\ oo_reuse o = true /\ intact (n, bs) = true /\
+          boff = (match lookupN n (i_wals wimg) with Some f => blen f | None => 0 end) mod BLOCK_SIZE_BYTES
+    end.
+Proof.
+  intros img dv next1 o wimg intact Hfresh logs r tabd r' reused HI Hrun.
+  exact (replay_logs_spec_sec img dv next1 o Hfresh wimg intact logs r tabd r' reused HI Hrun).
+Qed.
 
 (** the logs one after the other ([wimg] is only used for the length of the reused log) *)
 Theorem replay_logs_spec : forall (img : image) (dv : dview) (next1 : N) (o : open_oracle) (wimg : image),
@@ -440,7 +465,12 @@ Theorem replay_logs_spec : forall (img : image) (dv : dview) (next1 : N) (o : op
     end.
 Proof.
   intros img dv next1 o wimg Hfresh logs r tabd r' reused HI Hrun.
-  exact (replay_logs_spec_sec img dv next1 o Hfresh wimg logs r tabd r' reused HI Hrun).
+  destruct (replay_logs_spec_gen img dv next1 o wimg (fun _ => true) Hfresh logs r tabd r' reused HI Hrun)
+    as (fl & kp & E1 & E2 & E3 & E4 & E5 & E6).
+  exists fl, kp. split; [exact E1|]. split; [exact E2|]. split; [exact E3|]. split; [exact E4|]. split; [exact E5|].
+  destruct reused as [[n boff]|]; [|exact E6].
+  destruct E6 as (bs & F1 & F2 & _ & F3). exists bs. split; [exact F1|]. split; [exact F2|exact F3].
 Qed.
 
 Print Assumptions replay_logs_spec.
+Print Assumptions replay_logs_spec_gen.
